@@ -17,12 +17,42 @@ using C = std::complex<double>;
 extern "C" {
 C g_in[MEMSZ2]; C g_out[MEMSZ2];
 long r_plans, r_execs, r_destroys, r_rank, r_howmany; long r_dn[4], r_dis[4], r_dos[4], r_hn[4], r_his[4], r_hos[4];
-fftw_complex* r_in; fftw_complex* r_out; fftw_complex* r_xin; fftw_complex* r_xout; long r_sign; unsigned r_flags; long r_order_ok; char r_token[8];
-fftw_plan fftw_plan_guru64_dft(int rank, const fftw_iodim64* dims, int howmany_rank, const fftw_iodim64* howmany_dims, fftw_complex* in, fftw_complex* out, int sign, unsigned flags) {
-  ++r_plans; r_rank = rank; r_howmany = howmany_rank; r_in = in; r_out = out; r_sign = sign; r_flags = flags;
+fftw_complex* r_in; fftw_complex* r_out; fftw_complex* r_xin; fftw_complex* r_xout; long r_sign; unsigned r_flags; long r_order_ok; char r_token[8]; long r_unmodelled;
+static fftw_plan record_plan(long rank, long const* dn, long const* dis, long const* dos, long hrank, long const* hn, long const* his, long const* hos, fftw_complex* in, fftw_complex* out, int sign, unsigned flags) {
+  ++r_plans; r_rank = rank; r_howmany = hrank; r_in = in; r_out = out; r_sign = sign; r_flags = flags;
+  if(rank > 4 || hrank > 4) r_unmodelled = 1;
 #pragma unroll
-  for(int k = 0; k < 4; ++k) { if(k < rank) { r_dn[k] = dims[k].n; r_dis[k] = dims[k].is; r_dos[k] = dims[k].os; } if(k < howmany_rank) { r_hn[k] = howmany_dims[k].n; r_his[k] = howmany_dims[k].is; r_hos[k] = howmany_dims[k].os; } }
+  for(int k = 0; k < 4; ++k) { if(k < rank) { r_dn[k] = dn[k]; r_dis[k] = dis[k]; r_dos[k] = dos[k]; } if(k < hrank) { r_hn[k] = hn[k]; r_his[k] = his[k]; r_hos[k] = hos[k]; } }
   return reinterpret_cast<fftw_plan>(r_token);
+}
+// every complex-DFT planner of FFTW is reduced to the guru normal form (transformed dims and batch dims, each a triple n / input stride / output stride)
+fftw_plan fftw_plan_guru64_dft(int rank, const fftw_iodim64* dims, int howmany_rank, const fftw_iodim64* howmany_dims, fftw_complex* in, fftw_complex* out, int sign, unsigned flags) {
+  long dn[4] = {0, 0, 0, 0}, dis[4] = {0, 0, 0, 0}, dos[4] = {0, 0, 0, 0}, hn[4] = {0, 0, 0, 0}, his[4] = {0, 0, 0, 0}, hos[4] = {0, 0, 0, 0};
+#pragma unroll
+  for(int k = 0; k < 4; ++k) { if(k < rank) { dn[k] = dims[k].n; dis[k] = dims[k].is; dos[k] = dims[k].os; } if(k < howmany_rank) { hn[k] = howmany_dims[k].n; his[k] = howmany_dims[k].is; hos[k] = howmany_dims[k].os; } }
+  return record_plan(rank, dn, dis, dos, howmany_rank, hn, his, hos, in, out, sign, flags);
+}
+fftw_plan fftw_plan_guru_dft(int rank, const fftw_iodim* dims, int howmany_rank, const fftw_iodim* howmany_dims, fftw_complex* in, fftw_complex* out, int sign, unsigned flags) {
+  long dn[4] = {0, 0, 0, 0}, dis[4] = {0, 0, 0, 0}, dos[4] = {0, 0, 0, 0}, hn[4] = {0, 0, 0, 0}, his[4] = {0, 0, 0, 0}, hos[4] = {0, 0, 0, 0};
+#pragma unroll
+  for(int k = 0; k < 4; ++k) { if(k < rank) { dn[k] = dims[k].n; dis[k] = dims[k].is; dos[k] = dims[k].os; } if(k < howmany_rank) { hn[k] = howmany_dims[k].n; his[k] = howmany_dims[k].is; hos[k] = howmany_dims[k].os; } }
+  return record_plan(rank, dn, dis, dos, howmany_rank, hn, his, hos, in, out, sign, flags);
+}
+// contiguous row-major planners: strides are the products of the trailing sizes
+fftw_plan fftw_plan_dft(int rank, const int* n, fftw_complex* in, fftw_complex* out, int sign, unsigned flags) {
+  long dn[4] = {0, 0, 0, 0}, ds[4] = {0, 0, 0, 0}, none[4] = {0, 0, 0, 0}; long st = 1;
+#pragma unroll
+  for(int k = 3; k >= 0; --k) if(k < rank) { dn[k] = n[k]; ds[k] = st; st *= n[k]; }
+  return record_plan(rank, dn, ds, ds, 0, none, none, none, in, out, sign, flags);
+}
+fftw_plan fftw_plan_dft_1d(int n0, fftw_complex* in, fftw_complex* out, int sign, unsigned flags) { int n[1] = {n0}; return fftw_plan_dft(1, n, in, out, sign, flags); }
+fftw_plan fftw_plan_dft_2d(int n0, int n1, fftw_complex* in, fftw_complex* out, int sign, unsigned flags) { int n[2] = {n0, n1}; return fftw_plan_dft(2, n, in, out, sign, flags); }
+fftw_plan fftw_plan_dft_3d(int n0, int n1, int n2, fftw_complex* in, fftw_complex* out, int sign, unsigned flags) { int n[3] = {n0, n1, n2}; return fftw_plan_dft(3, n, in, out, sign, flags); }
+fftw_plan fftw_plan_many_dft(int rank, const int* n, int howmany, fftw_complex* in, const int* inembed, int istride, int idist, fftw_complex* out, const int* onembed, int ostride, int odist, int sign, unsigned flags) {
+  long dn[4] = {0, 0, 0, 0}, dis[4] = {0, 0, 0, 0}, dos[4] = {0, 0, 0, 0}, hn[4] = {howmany, 0, 0, 0}, his[4] = {idist, 0, 0, 0}, hos[4] = {odist, 0, 0, 0}; long si = istride, so = ostride;
+#pragma unroll
+  for(int k = 3; k >= 0; --k) if(k < rank) { dn[k] = n[k]; dis[k] = si; dos[k] = so; si *= (inembed ? inembed[k] : n[k]); so *= (onembed ? onembed[k] : n[k]); }
+  return record_plan(rank, dn, dis, dos, 1, hn, his, hos, in, out, sign, flags);
 }
 void fftw_execute_dft(const fftw_plan p, fftw_complex* in, fftw_complex* out) { ++r_execs; r_xin = in; r_xout = out; r_order_ok = (p == reinterpret_cast<fftw_plan>(r_token)) && r_plans == 1 && r_destroys == 0; }
 void fftw_destroy_plan(fftw_plan p) { if(p == reinterpret_cast<fftw_plan>(r_token)) ++r_destroys; else r_destroys += 100; }
@@ -31,17 +61,24 @@ namespace fftw = multi::fftw;
 
 static void check_plan(Spec<D> const& si, Spec<D> const& so, bool const* which, C const* ibase, C const* obase, long sign) {
   vf_assert(r_plans == 1 && r_execs == 1 && r_destroys == 1 && r_order_ok == 1, "one plan, executed once with that plan before it is destroyed exactly once");
-  long nt = 0;
+  vf_assert(r_unmodelled == 0, "MODEL the plan fits the recorder (at most four transformed and four batch dimensions)");
+  // the multi-dimensional DFT is separable and batches are independent: the ORDER of the entries in either list does not matter, and entries of
+  // size 1 (and view dimensions of size 1) contribute nothing.  Every view dimension of size > 1 must be matched by exactly one entry of the list
+  // it belongs to, with its size, input stride and output stride; no other entry of size > 1 may exist.
+  bool used_d[4] = {false, false, false, false}; bool used_h[4] = {false, false, false, false}; bool ok = true;
 #pragma unroll
-  for(int d = 0; d < D; ++d) nt += which[d] ? 1 : 0;
-  vf_assert(r_rank == nt && r_howmany == D - nt, "every dimension appears in exactly one of the two lists");
-  long kt = 0, kh = 0; bool ok = true;
+  for(int d = 0; d < D; ++d) if(si.d[d].size > 1) {
+    bool found = false;
 #pragma unroll
-  for(int d = 0; d < D; ++d) {
-    if(which[d]) { ok = ok && r_dn[kt] == si.d[d].size && r_dis[kt] == si.d[d].stride && r_dos[kt] == so.d[d].stride; ++kt; }
-    else { ok = ok && r_hn[kh] == si.d[d].size && r_his[kh] == si.d[d].stride && r_hos[kh] == so.d[d].stride; ++kh; }
+    for(int k = 0; k < 4; ++k) {
+      if(which[d]) { if(!found && k < r_rank && !used_d[k] && r_dn[k] == si.d[d].size && r_dis[k] == si.d[d].stride && r_dos[k] == so.d[d].stride) { used_d[k] = true; found = true; } }
+      else { if(!found && k < r_howmany && !used_h[k] && r_hn[k] == si.d[d].size && r_his[k] == si.d[d].stride && r_hos[k] == so.d[d].stride) { used_h[k] = true; found = true; } }
+    }
+    ok = ok && found;
   }
-  vf_assert(ok, "dims = (size, istride, ostride) of the transformed dimensions in order; howmany_dims = the others");
+#pragma unroll
+  for(int k = 0; k < 4; ++k) { if(k < r_rank && !used_d[k]) ok = ok && r_dn[k] == 1; if(k < r_howmany && !used_h[k]) ok = ok && r_hn[k] == 1; }
+  vf_assert(ok, "the plan transforms exactly the chosen dimensions and batches over the others, each with the view's size, input stride and output stride");
   vf_assert(reinterpret_cast<C const*>(r_in) == ibase && reinterpret_cast<C const*>(r_out) == obase, "in/out are the bases of the input and output views");
   vf_assert(r_xin == r_in && r_xout == r_out, "execute uses the planned pointers");
   vf_assert(r_sign == sign, "sign as requested");
